@@ -837,6 +837,8 @@ def no_stateful_closures(ctx, rule: str, consequence: str):
             for x in body_nodes:
                 if isinstance(x, (ast.Subscript, ast.Attribute)) and isinstance(x.ctx, (ast.Store, ast.Del)) and isinstance(x.value, ast.Name) \
                         and x.value.id not in locs and x.value.id not in ("self", "cls"):
+                    if any(w in x.value.id.lower() for w in ("h5", "group", "file")):
+                        continue        # writing a dataset through a captured HDF5 handle is output, not state (serialisers: C14)
                     bad.append((x, f"{norm(x)} = ..."))
                 if isinstance(x, ast.Call) and isinstance(x.func, ast.Attribute) and x.func.attr in CONTAINER_MUTATORS \
                         and isinstance(x.func.value, ast.Name) and x.func.value.id not in locs and x.func.value.id not in ("self", "cls"):
